@@ -1,39 +1,46 @@
 /* C13 - typestate of the annotator's id index, over the effect slices of annotator.cpp.
  *
- * Ghost state:  L  "mIdList lists every identifier currently present in the model"
+ * Ghost state:  L  "mIdList lists every identifier currently present in the model" (complete)
+ *               X  "mIdList has no entry for an identifier its item no longer carries" (exact)
  *               Hh "mHash is the hash of the model as it is now"
- * Invariant I:  Hh ==> L      (a current hash certifies a complete list)
+ * Invariant I:  Hh ==> L && X     (a current hash certifies a complete and exact list)
  * The user may edit the model between any two annotator calls: every public entry point is
  * entered with ARBITRARY (L, Hh) satisfying I.
  *
  * Obligations (from the property: "each newly assigned identifier differs from every identifier
  * present anywhere in the model at the time of the call, even if the model was edited after it
  * was handed to the annotator"; "item(id)/ids()/duplicateIds()/itemCount() agree with the model"):
- *   - makeUniqueId() is reached only with L
- *   - the id list is read by a lookup only with L
- *   - mHash is marked current only with L, and I holds again when the entry point returns.     */
+ *   - makeUniqueId() is reached only with L (stale extra entries only make more identifiers look taken)
+ *   - the id list is read by a lookup only with L and X
+ *   - mHash is marked current only with L and X, and I holds again when the entry point returns.  */
 #ifndef C13_EFFECTS_H
 #define C13_EFFECTS_H
-static bool L, Hh, pend, saveL;
+static bool L, X, Hh, pend, saveL;
 /* invariant of EVERY loop of the slices (a loop contract, so no loop is unwound): a loop never
  * loses a complete list, never leaves an identifier written but not yet listed, and keeps I */
 #define __LC_SLICE                                                                            \
-    __CPROVER_assigns(L, Hh, pend, saveL)                                                     \
-    __CPROVER_loop_invariant(!pend && (__CPROVER_loop_entry(L) ==> L) && (!Hh || L))
+    __CPROVER_assigns(L, X, Hh, pend, saveL)                                                  \
+    __CPROVER_loop_invariant(!pend && (__CPROVER_loop_entry(L) ==> L) && (!Hh || (L && X)))
+/* a loop that only reads the list (and logs issues): nothing of the ghost state changes */
+#define __LC_SLICE_RO __CPROVER_assigns() __CPROVER_loop_invariant(1)
 /* summary of a directly recursive function (component trees), used at its recursive call and
  * checked for the function itself by h_rec_*: same relation as the loop invariant */
 #define SLICE_REC_SUMMARY()                                                                   \
     do {                                                                                      \
         __CPROVER_assert(!pend && L, "recursive call: entered with a complete id list and no identifier pending"); \
         Hh = nondet_bool();                                                                   \
+        X = nondet_bool();                                                                    \
+        __CPROVER_assume(!Hh || X);                                                           \
         saveL = nondet_bool();                                                                \
     } while (0)
 /* update(): trusted contract (DESIGN 3/C13): generateHash() is sensitive to every identifier, so
  * an unchanged hash means an unchanged model; otherwise the list is rebuilt */
 static void E_Annotator_AnnotatorImpl_update(void)
 {
-    if (!Hh)
+    if (!Hh) {
         L = 1;
+        X = 1;
+    }
     Hh = 1;
     pend = 0;
 }
@@ -45,6 +52,7 @@ static void E_Annotator_AnnotatorImpl_makeUniqueId(void)
 static void E_id_set(void)
 {
     Hh = 0;
+    X = 0; /* the identifier the item carried before (if any) may still be listed */
     if (!pend) {
         saveL = L;
         pend = 1;
@@ -58,22 +66,26 @@ static void E_list_insert(void)
         pend = 0;
     }
 }
-static void E_id_removed(void) { Hh = 0; }       /* a stale extra entry keeps the list a superset */
+static void E_id_removed(void) { Hh = 0; X = 0; } /* a stale extra entry keeps the list a superset, but not exact */
 static void E_list_erase(void) {}
-static void E_list_clear(void) { L = 0; }
-static void E_list_rebuilt(void) { L = 1; pend = 0; }
-static void E_list_assigned(void) { L = nondet_bool(); }
+static void E_list_clear(void) { L = 0; X = 1; }
+static void E_list_rebuilt(void) { L = 1; X = 1; pend = 0; }
+static void E_list_assigned(void) { L = nondet_bool(); X = nondet_bool(); }
 static void E_list_read(void)
 {
     __CPROVER_assert(L, "lookups (item, ids, duplicateIds, itemCount, isUnique) read an id list that is complete for the model as it is now");
+    __CPROVER_assert(X, "lookups read an id list without stale entries (an entry for an identifier its item no longer carries)");
 }
+/* the number of entries (assignAllIds()/assignIds() compare it before and after to report whether anything was assigned): not a lookup */
+static void E_list_size(void) {}
 static void E_mHash_assign_zero(void) { Hh = 0; }
 static void E_mHash_assign_generateHash(void)
 {
     __CPROVER_assert(L, "the hash is marked current only when the id list is complete");
+    __CPROVER_assert(X, "the hash is marked current only when the id list has no stale entry");
     Hh = 1;
 }
-static void E_mHash_assign_other(void) { Hh = nondet_bool(); __CPROVER_assert(!Hh || L, "the hash is marked current only when the id list is complete"); }
+static void E_mHash_assign_other(void) { Hh = nondet_bool(); __CPROVER_assert(!Hh || (L && X), "the hash is marked current only when the id list is complete and exact"); }
 static void E_issues_cleared(void) {}
 static void E_issue_added(void) {}
 #endif
